@@ -125,6 +125,11 @@ def _bex_run_chunk(items):
     return [_bex_run(it) for it in items]
 
 
+def _quiet_worker():
+    if os.environ.get('VERIF_WORKER_STDOUT') != '1':
+        os.dup2(os.open(os.devnull, os.O_WRONLY), 1)
+
+
 def pool_map(fn, items, nproc, init, initargs, flatten=False):
     """Map over forked worker processes; a worker that dies (e.g. a segfault inside a C
     extension) is a harness error, never a silent hang."""
@@ -133,7 +138,8 @@ def pool_map(fn, items, nproc, init, initargs, flatten=False):
 
     out = []
     ctx = mp.get_context('fork')
-    with ProcessPoolExecutor(max_workers=nproc, mp_context=ctx, initializer=init, initargs=initargs) as ex:
+    kw = {'initializer': init, 'initargs': initargs} if init is not None else {'initializer': _quiet_worker}
+    with ProcessPoolExecutor(max_workers=nproc, mp_context=ctx, **kw) as ex:
         futs = {ex.submit(fn, it): i for i, it in enumerate(items)}
         try:
             for f in as_completed(futs):
